@@ -592,7 +592,7 @@ def _oracle(ctx, case, opts, src, exc, mprog, mres, iprog=None):
         st["roundtrip_ok"] += 1
         st["roundtrip_ok_" + L.opts_str(opts)] += 1
         for fl in case["meta"].get("flags", []):
-            if fl.startswith(("loop_", "for", "while", "if", "init")):
+            if fl.startswith(("loop_", "for", "while", "if", "init", "forced_loop")):
                 st["roundtrip_ok_with_" + fl] += 1
     finally:
         L.release(modname)
@@ -607,8 +607,9 @@ def gen_direct(rng, n: int, refusal_every: int = 8) -> list[dict]:
         scheme = rng.choice(["clean", "clean", "odd", "odd", "odd", "collide"])
         refusal = GEN.REFUSALS[(i // refusal_every) % len(GEN.REFUSALS)] if i % refusal_every == refusal_every - 1 else None
         special = rng.random() < 0.2
+        force_loop = None if refusal else {3: "identity", 5: "direct"}.get(i % 8)
         mg = GEN.ModelGen(rng, scheme=scheme, special=special, refusal=refusal, size=rng.choice([2, 4, 6]),
-                          depth=2, allow_loops=True)  # fmt: skip
+                          depth=2, allow_loops=True, force_loop=force_loop)  # fmt: skip
         m = mg.model()
         meta = {"scheme": scheme, "flags": sorted(mg.flags), "refusal": refusal, "src": "direct"}
         cases.append(case_of_model(m, GEN.feeds_for(m, rng, 3), meta))
@@ -775,12 +776,43 @@ def gen_local_functions(rng, n: int) -> list[dict]:
                 f"    r = op.{rng.choice(['Add', 'Sub'])}(t2, {h1}(Y, X))\n    return r\n")
         bodies.append((f"lf{i}", main))
         info.append((f"lf{i}", two))
+    # calls that occur ONLY inside an If / Loop body of another local function (the callee is not called from the
+    # main graph nor from a top-level node of a function)
+    for i in range(max(2, n // 2)):
+        ha, hb, mn = f"inner{i}a", f"inner{i}b", f"lg{i}"
+        bodies.append((ha, f"@script(my_dom)\ndef {ha}(A, B):\n    t = op.{rng.choice(['Relu', 'Abs', 'Tanh'])}(A)\n    return op.{rng.choice(['Add', 'Mul'])}(t, B)\n"))
+        if rng.random() < 0.6:
+            srcb = (f"@script(other)\ndef {hb}(A):\n    c = op.ReduceSum(A, keepdims=0) > 0.0\n    if c:\n        u = {ha}(A, A)\n"
+                    f"    else:\n        u = op.Neg(A)\n    return op.Mul(u, A)\n")
+            kind = "call_in_if"
+        else:
+            srcb = (f"@script(other)\ndef {hb}(A, N):\n    u = op.Identity(A)\n    for i in range(N):\n        u = {ha}(u, A)\n"
+                    f"    return op.Sub(u, A)\n")
+            kind = "call_in_loop"
+        bodies.append((hb, srcb))
+        arg = "X" if kind == "call_in_if" else "X, N"
+        sig = "X: FLOAT[3], Y: FLOAT[3]" + ("" if kind == "call_in_if" else ", N: INT64")
+        bodies.append((mn, f"@script()\ndef {mn}({sig}) -> FLOAT[3]:\n    t = {hb}({arg})\n    return op.Add(t, Y)\n"))
+        info.append((mn, kind))
     fn, err, modname = scriptgen.compile_functions(bodies, header_extra=header)
     cases = []
     for name, two in info:
         if name in err:
             continue
         m = fn[name].to_model_proto()
+        if isinstance(two, str):
+            # both listing orders of the model-local functions
+            for order in ("given", "reversed"):
+                m2 = onnx.ModelProto()
+                m2.CopyFrom(m)
+                if order == "reversed":
+                    fs = list(m2.functions)[::-1]
+                    del m2.functions[:]
+                    m2.functions.extend(fs)
+                meta = {"scheme": "localfn", "flags": ["local_functions", "local_" + two, "local_order_" + order],
+                        "refusal": None, "src": "localfn"}
+                cases.append(case_of_model(m2, GEN.feeds_for(m2, rng, 2), meta))
+            continue
         meta = {"scheme": "localfn", "flags": ["local_functions"] + (["nested_local_function"] if two else []),
                 "refusal": None, "src": "localfn"}
         cases.append(case_of_model(m, GEN.feeds_for(m, rng, 2), meta))
@@ -1198,7 +1230,9 @@ def verdict(run: core.Run, ctx: Ctx, audit: dict, ncases: int) -> None:
                 "err_RuntimeError", "err_AssertionError", "err_IndexError", "fragment_cases", "fragment_reread_ok",
                 "type_evals", "table_entries", "cleanup_evals", "import_lines_compared", "branch_attr_conflict_renamed", "branch_unique_suffix",
                 "roundtrip_ok_with_if", "roundtrip_ok_with_loop_for", "roundtrip_ok_with_loop_while",
-                "roundtrip_ok_with_init", "flag_loop_forcond", "flag_shapes", "flag_local_functions", "flag_attr_fn",
+                "roundtrip_ok_with_init", "flag_loop_forcond", "flag_shapes", "flag_local_functions", "flag_attr_fn", "flag_loop_cond_identity_of_computed",
+                "flag_local_order_given", "flag_local_order_reversed", "flag_forced_loop_identity", "flag_forced_loop_direct",
+                "roundtrip_ok_with_forced_loop_identity",
                 "refused_as_expected"]  # fmt: skip
     missing = [k for k in required if not st[k]]
     run.coverage["required_counters"] = {k: st[k] for k in required}
